@@ -451,10 +451,13 @@ def parse_request_header(data):
     return api_key, version, corr, client_id, r
 
 
-def parse_request(data):
+def parse_request(data, check_magic=True):
     """Strict parse of a request frame (without the 4-byte size prefix).
     client_id is returned as raw bytes (or None) so callers can compare
-    byte-for-byte."""
+    byte-for-byte.  check_magic=False skips only the rule tying the message
+    format to the Produce version (the simulated broker needs the content of
+    such a request to answer it; the rule violation is reported separately by
+    magic_violation())."""
     api_key, version, corr, client_id, r = parse_request_header(data)
     if client_id is not None:
         try:
@@ -468,7 +471,7 @@ def parse_request(data):
     if r.remaining():
         raise ParseError("%d trailing bytes after %s v%d request body" % (
             r.remaining(), API_NAMES.get(api_key, api_key), version))
-    if api_key == PRODUCE:
+    if api_key == PRODUCE and check_magic:
         allowed = PRODUCE_MAGIC[version]
         for t in body["topics"]:
             for p in t["partitions"]:
@@ -485,6 +488,20 @@ def parse_request(data):
         raise ParseError("consumer list-offsets with replica id %d" % body["replica_id"])
     return {"api_key": api_key, "api_version": version, "correlation_id": corr, "client_id": client_id,
             "body": body}
+
+
+def magic_violation(parsed):
+    """None, or a description of messages whose format the Produce version does not allow."""
+    if parsed["api_key"] != PRODUCE or parsed["body"] is None:
+        return None
+    allowed = PRODUCE_MAGIC[parsed["api_version"]]
+    for t in parsed["body"]["topics"]:
+        for p in t["partitions"]:
+            for m in p["records"] or []:
+                if m["magic"] not in allowed:
+                    return "magic %d message in Produce v%d (allowed %r)" % (m["magic"], parsed["api_version"],
+                                                                              allowed)
+    return None
 
 
 def encode_response(api_key, version, correlation_id, body):
